@@ -232,10 +232,10 @@ def build_entries() -> Dict[str, Tuple[Any, Spec]]:
         Spec("udp_multi", "LLUDP", "Foo", [("Bar", [{"I": 1}, {"I": 5}]), ("Baz", [{"I": "five", "S": "hello"}]), ("Empty", [])],
              meta={"Method": "OUT", "Acks": (1, 2, 3), "Extra": b"\x01\x02"}))
     # 4: other name, message-level meta
-    m = Message("Bar", Block("Bar", I=5, S="he"))
+    m = Message("Bar", Block("Bar", I=5, S="he", X="he's \"q\" \\"))
     m.meta.update({"AgentLocal": 2, "ObjectUpdateIDs": (7, 8), "SelectedLocal": 7})
     add(LLUDPMessageLogEntry(m, None, None),
-        Spec("udp_bar", "LLUDP", "Bar", [("Bar", [{"I": 5, "S": "he"}])],
+        Spec("udp_bar", "LLUDP", "Bar", [("Bar", [{"I": 5, "S": "he", "X": "he's \"q\" \\"}])],
              meta={"Method": "OUT", "Acks": (), "Extra": b"", "AgentLocal": 2, "ObjectUpdateIDs": (7, 8), "SelectedLocal": 7}))
     # 5: subfield-serialized var
     m = Message("ImprovedTerseObjectUpdate", Block("RegionData", RegionHandle=5, TimeDilation=65535),
@@ -455,6 +455,8 @@ class Lit:
 LITS: List[Lit] = [
     Lit("int", "5", 5), Lit("int", "0", 0), Lit("hex", "0x7", 7), Lit("float", "1.5", 1.5), Lit("str", '"he"', "he"),
     Lit("str", '"hello"', "hello"), Lit("bytes", 'b"he"', b"he"), Lit("none", "None", None), Lit("bool", "True", True),
+    Lit("bool", "False", False), Lit("str", '"00000000-0000-0000-0000-000000000005"', "00000000-0000-0000-0000-000000000005"),
+    Lit("str", "'he\\'s \"q\" \\\\'", "he's \"q\" \\"),
     Lit("tuple3", "(1, 2, 3)", (1, 2, 3)), Lit("tuple3", "(0, 0, 0)", (0, 0, 0)), Lit("tuple4", "(0, 0, 0, 1)", (0, 0, 0, 1)),
     Lit("enum", "SculptType.TORUS", 2), Lit("meta", "Meta.AgentLocal", meta_key="AgentLocal"),
     Lit("meta", "Meta.SelectedLocal", meta_key="SelectedLocal"),
@@ -465,7 +467,7 @@ OPS: List[Optional[str]] = [None, "==", "!=", "^=", "$=", "~=", ">", ">=", "<", 
 SELECTORS: List[Tuple[Tuple[str, ...], str]] = (
     [(("Foo", "Bar", v), "exact") for v in _foo_vars()] + [
         (("Foo", "*", "I"), "blockglob"), (("Foo", "Bar", "*"), "varglob"), (("*", "*", "*"), "allglob"), (("F*", "B*", "S"), "nameglob"),
-        (("LLUDP", "Bar", "I"), "root-by-type"), (("GenericMessage", "ParamList", "Parameter"), "exact"),
+        (("LLUDP", "Bar", "I"), "root-by-type"), (("Bar", "Bar", "X"), "exact"), (("GenericMessage", "ParamList", "Parameter"), "exact"),
         (("GenericMessage", "MethodData", "Method"), "exact"), (("GenericMessage", "AgentData", "AgentID"), "exact"), (("Foo", "Empty", "*"), "empty-block"), (("Foo", "Bar", "Nope"), "missing-var"),
         (("ImprovedTerseObjectUpdate", "ObjectData", "Data", "ID"), "sub-exact"),
         (("ImprovedTerseObjectUpdate", "ObjectData", "Data", "Position"), "sub-exact"),
@@ -634,7 +636,8 @@ def _b_check_filter(part: Part, selector, op, lit, eids):
     except Exception as e:  # noqa
         part.violation("compile", f"compile_filter:{op or 'bare'}", wbase, f"{text!r} does not compile: {type(e).__name__}: {e}"[:300])
         return
-    if not isinstance(node, MessageFilterNode) or tuple(node.selector) != tuple(selector) or node.operator != op:
+    if not isinstance(node, MessageFilterNode) or tuple(getattr(node, "selector", selector)) != tuple(selector) \
+            or getattr(node, "operator", op) != op:
         part.violation("shape", "MessageFilterVisitor:leaf", wbase, f"{text!r} compiled to {type(node).__name__} "
                                                                    f"{getattr(node, 'selector', None)} {getattr(node, 'operator', None)}")
         return
@@ -733,11 +736,12 @@ A_LEAVES: List[Tuple[str, Tuple[str, ...], Optional[str], Optional[str]]] = [
     ("LLUDP", ("LLUDP",), None, None),                       # root by entry type: differs between entries of the same name
     ("Meta.AgentLocal", ("Meta", "AgentLocal"), None, None),  # Meta truthiness (udp_bar, udp_stub)
     ("Foo.Bar.* > 4", ("Foo", "Bar", "*"), ">", "4"),         # type-inapplicable to later fields: true by the first field
-    ("Foo.Bar.I == 0", ("Foo", "Bar", "I"), "==", "0"),       # false everywhere
+    ("Foo.Bar.N != None", ("Foo", "Bar", "N"), "!=", "None"),  # false everywhere (N is None where it exists); None literal
     ("HTTP", ("HTTP",), None, None),                         # root by entry type
     ("Foo.Bar.S < 6", ("Foo", "Bar", "S"), "<", "6"),         # type-inapplicable to the only selected field
 ]
-A_LITS = {"5": Lit("int", "5", 5), "0": Lit("int", "0", 0), "4": Lit("int", "4", 4), "6": Lit("int", "6", 6)}
+A_LITS = {"5": Lit("int", "5", 5), "0": Lit("int", "0", 0), "4": Lit("int", "4", 4), "6": Lit("int", "6", 6),
+          "None": Lit("none", "None", None)}
 
 Tree = tuple  # ("L", i) | ("!", t) | ("&&", l, r) | ("||", l, r)
 
@@ -788,14 +792,21 @@ def expected_shape(t: Tree):
     return (t[0],) + tuple(expected_shape(c) for c in t[1:])
 
 
+def _node_literal(node):
+    """Right-hand side of a compiled comparison as plain data, whether the node keeps it boxed or not (tolerant accessor: the
+    harness depends on the filter TEXT it generated, not on how the compiled tree stores its literals)."""
+    v = getattr(node, "value", None)
+    if isinstance(v, (MetaFieldSpecifier, EnumFieldSpecifier)):
+        return repr(tuple(v))
+    if v is not None and not isinstance(v, (bool, int, float, str, bytes, tuple)) and hasattr(v, "value"):
+        v = v.value
+    return repr(v)
+
+
 def compiled_shape(node):
     if isinstance(node, MessageFilterNode):
-        v = node.value
-        if v is not None and not isinstance(v, (MetaFieldSpecifier, EnumFieldSpecifier)):
-            v = repr(v.value)
-        elif v is not None:
-            v = repr(v)
-        return ("L", tuple(node.selector), node.operator, v)
+        op = getattr(node, "operator", None)
+        return ("L", tuple(getattr(node, "selector", ())), op, None if op is None else _node_literal(node))
     if isinstance(node, UnaryNotFilterNode):
         return ("!", compiled_shape(node.node))
     if isinstance(node, AndFilterNode):
@@ -1062,8 +1073,9 @@ def _restore_module_state():
 
 
 class LogWorld:
-    def __init__(self, maxlen: int):
+    def __init__(self, maxlen: int, mode: str = "api"):
         self.maxlen = maxlen
+        self.mode = mode
         self.logger = FilteringMessageLogger(maxlen=maxlen)
         self.serial = 0
         self.raw: List[Tuple[str, int]] = []     # model ring buffer: (kind, serial)
@@ -1071,6 +1083,16 @@ class LogWorld:
         self.paused = False
         self.fidx = 0
         self.violations: List[Dict[str, Any]] = []
+        # mode "wrap": a second log window (filter stays "all") behind the same WrappingMessageLogger fan-out
+        self.logger_b = None
+        self.wrapper = None
+        self.b_raw: List[Tuple[str, int]] = []
+        self.b_aged: List[Tuple[str, int]] = []
+        self.b_paused = False
+        if mode == "wrap":
+            self.logger_b = FilteringMessageLogger(maxlen=maxlen)
+            self.wrapper = ml.WrappingMessageLogger()
+            self.wrapper.loggers.extend([self.logger, self.logger_b])
 
 
 def _ident(e) -> Tuple[str, int]:
@@ -1083,58 +1105,98 @@ def _ident(e) -> Tuple[str, int]:
     return ("?", -1)
 
 
+def _impl_state(lg):
+    """Everything the logger holds that can influence a future transition: every entry container (ring buffer, view, ...) found
+    by type rather than by (private) name -- internal renames / deque<->list swaps do not break the harness --, the containers'
+    bounds and the logger's scalar settings."""
+    view = [_ident(e) for e in lg]
+    containers = []
+    config = []
+    for name, val in sorted(vars(lg).items()):
+        if isinstance(val, (list, tuple)) or type(val).__name__ == "deque":
+            items = list(val)
+            if all(hasattr(e, "matches") or hasattr(e, "message") for e in items):
+                containers.append([_ident(e) for e in items])
+                config.append(("bound", repr(getattr(val, "maxlen", None))))
+        elif val is None or isinstance(val, (bool, int, str)):
+            config.append(("scalar", repr(val)))
+    order: dict = {}
+    for c in containers + [view]:
+        for ident in c:
+            order.setdefault(ident, len(order))
+    impl = tuple(sorted(tuple((k, order[(k, s)]) for k, s in c) for c in containers))
+    view_real = tuple((k, order[(k, s)]) for k, s in view)
+    return (impl, view_real, bool(lg.paused), tuple(sorted(config)))
+
+
+C_MODES = ("api", "direct", "wrap")
+
+
 class LogHarness:
+    """mode = how a log event reaches the logger -- every public entry:
+         api     logger.log_lludp_message / log_eq_event / log_http_response          (what the proxy calls on a single logger)
+         direct  logger.add_log_entry(entry)                                         (what the fan-out and the log import call)
+         wrap    WrappingMessageLogger([logger, second logger]).log_*(...)            (several log windows; + pause/resume of the second)
+       The view oracle is the same for every logger in every mode: a paused logger retains nothing that arrives while paused."""
     copyable = False
 
-    def __init__(self, maxlen: int):
+    def __init__(self, maxlen: int, mode: str = "api"):
         self.maxlen = maxlen
+        self.mode = mode
 
     def fresh(self) -> LogWorld:
         _restore_module_state()
-        return LogWorld(self.maxlen)
+        return LogWorld(self.maxlen, self.mode)
 
     def enabled(self, w: LogWorld):
-        return ([("log", k) for k in range(len(C_KINDS))] + [("filter", i) for i in range(len(C_FILTERS))]
-                + [("pause",), ("resume",), ("clear",)])
+        evs = ([("log", k) for k in range(len(C_KINDS))] + [("filter", i) for i in range(len(C_FILTERS))]
+               + [("pause",), ("resume",), ("clear",)])
+        if self.mode == "wrap":
+            evs += [("pauseB",), ("resumeB",)]
+        return evs
 
     def deviation(self, ev) -> int:
         return 0
 
     def canon(self, w: LogWorld):
-        lg = w.logger
-        # every entry container the logger holds (ring buffer, view, ...), found by type rather than by (private) name so
-        # that internal renames / deque<->list swaps of the implementation do not break the harness
-        view = [_ident(e) for e in lg]
-        containers = []
-        config = []  # what else can influence a future transition: the containers' bounds, scalar settings of the logger
-        for name, val in sorted(vars(lg).items()):
-            if isinstance(val, (list, tuple)) or type(val).__name__ == "deque":
-                items = list(val)
-                if all(hasattr(e, "matches") or hasattr(e, "message") for e in items):
-                    containers.append([_ident(e) for e in items])
-                    config.append(("bound", repr(getattr(val, "maxlen", None))))
-            elif val is None or isinstance(val, (bool, int, str)):
-                config.append(("scalar", repr(val)))
-        order: dict = {}
-        for c in containers + [view]:
-            for ident in c:
-                order.setdefault(ident, len(order))
-        impl = tuple(sorted(tuple((k, order[(k, s)]) for k, s in c) for c in containers))
-        view_real = tuple((k, order[(k, s)]) for k, s in view)
-        return (impl, view_real, bool(lg.paused), w.fidx, tuple(k for k, _ in w.raw), tuple(k for k, _ in w.aged), w.paused,
-                tuple(sorted(config)))
+        c = (_impl_state(w.logger), w.fidx, tuple(k for k, _ in w.raw), tuple(k for k, _ in w.aged), w.paused)
+        if w.logger_b is not None:
+            c += (_impl_state(w.logger_b), tuple(k for k, _ in w.b_raw), tuple(k for k, _ in w.b_aged), w.b_paused)
+        return c
 
     def nontrivial(self, w: LogWorld, hist):
-        if w.aged or (w.raw and len(self._expected(w)) != len(w.raw) + len(w.aged)):
+        if w.aged or (w.raw and len(self._expected(w)) != len(w.raw) + len(w.aged)) or (w.logger_b is not None and w.b_raw != w.raw):
             return self.canon(w)
         return None
 
     def observe(self, w: LogWorld):
-        return (tuple(k for k, _ in self._expected(w)), w.fidx)
+        return (tuple(k for k, _ in self._expected(w)), w.fidx, tuple(k for k, _ in w.b_raw))
 
     def _expected(self, w: LogWorld):
         ref = C_REF[C_FILTERS[w.fidx][0]]
         return list(w.aged) + [e for e in w.raw if ref[e[0]]]
+
+    def _deliver(self, w: LogWorld, k: str):
+        lg = w.logger
+        target = w.wrapper if self.mode == "wrap" else lg
+        if k == "LLUDP":
+            m = Message("Foo", Block("Bar", I=5, S="hello", Serial=w.serial), packet_id=w.serial)
+            if self.mode == "direct":
+                lg.add_log_entry(LLUDPMessageLogEntry(m, None, None))
+            else:
+                target.log_lludp_message(None, None, m)
+        elif k == "EQ":
+            ev = {"message": "Foo", "body": {"Serial": w.serial}}
+            if self.mode == "direct":
+                lg.add_log_entry(EQMessageLogEntry(ev, None, None))
+            else:
+                target.log_eq_event(None, None, ev)
+        else:
+            flow = _http_flow(w.serial, "Foo", path=f"/cap/{w.serial}")
+            if self.mode == "direct":
+                lg.add_log_entry(HTTPMessageLogEntry(flow))
+            else:
+                target.log_http_response(flow)
 
     def step(self, w: LogWorld, ev):
         lg = w.logger
@@ -1144,37 +1206,38 @@ class LogHarness:
             try:
                 if kind == "log":
                     w.serial += 1
-                    k = C_KINDS[ev[1]]
-                    if k == "LLUDP":
-                        m = Message("Foo", Block("Bar", I=5, S="hello", Serial=w.serial), packet_id=w.serial)
-                        lg.log_lludp_message(None, None, m)
-                    elif k == "EQ":
-                        lg.log_eq_event(None, None, {"message": "Foo", "body": {"Serial": w.serial}})
-                    else:
-                        lg.log_http_response(_http_flow(w.serial, "Foo", path=f"/cap/{w.serial}"))
+                    self._deliver(w, C_KINDS[ev[1]])
                 elif kind == "filter":
                     lg.set_filter(C_FILTERS[ev[1]][1])
                 elif kind == "pause":
                     lg.set_paused(True)
                 elif kind == "resume":
                     lg.set_paused(False)
+                elif kind == "pauseB":
+                    w.logger_b.set_paused(True)
+                elif kind == "resumeB":
+                    w.logger_b.set_paused(False)
                 else:
                     lg.clear()
             except Exception as e:  # noqa
                 tag = C_FILTERS[ev[1]][0] if kind == "filter" else fname
                 clause = "set_filter-raises" if kind == "filter" else "op-raises"
                 w.violations.append({"clause": clause, "site": f"FilteringMessageLogger.{'set_filter' if kind == 'filter' else kind}[{tag}]",
-                                     "detail": f"{ev} raised {type(e).__name__}: {e}"[:300]})
+                                     "detail": f"{ev} ({self.mode}) raised {type(e).__name__}: {e}"[:300]})
         # model step
         if kind == "log":
+            ident = (C_KINDS[ev[1]], w.serial)
             if not w.paused:
-                ident = (C_KINDS[ev[1]], w.serial)
                 ref = C_REF[fname]
                 w.raw.append(ident)
                 if len(w.raw) > w.maxlen:
                     old = w.raw.pop(0)
                     if ref[old[0]]:
                         w.aged.append(old)
+            if w.logger_b is not None and not w.b_paused:
+                w.b_raw.append(ident)
+                if len(w.b_raw) > w.maxlen:
+                    w.b_aged.append(w.b_raw.pop(0))
         elif kind == "filter":
             w.fidx = ev[1]
             ref = C_REF[C_FILTERS[w.fidx][0]]
@@ -1183,12 +1246,18 @@ class LogHarness:
             w.paused = True
         elif kind == "resume":
             w.paused = False
+        elif kind == "pauseB":
+            w.b_paused = True
+        elif kind == "resumeB":
+            w.b_paused = False
         else:
             w.raw, w.aged = [], []
         # oracle
         tag = C_FILTERS[w.fidx][0]
-        op = {"log": "add_log_entry", "filter": "set_filter", "pause": "set_paused", "resume": "set_paused", "clear": "clear"}[kind]
-        site = f"FilteringMessageLogger.{op}" + ("[inapplicable-filter]" if tag == "inapplicable" else "")
+        op = {"log": "add_log_entry", "filter": "set_filter", "pause": "set_paused", "resume": "set_paused", "clear": "clear",
+              "pauseB": "set_paused", "resumeB": "set_paused"}[kind]
+        via = "" if self.mode == "api" else f"[via {'add_log_entry' if self.mode == 'direct' else 'WrappingMessageLogger'}]"
+        site = f"FilteringMessageLogger.{op}" + ("[inapplicable-filter]" if tag == "inapplicable" else "") + via
         if rec.records:
             w.violations.append({"clause": "logger-filter-error", "site": site,
                                  "detail": f"{ev} under filter {C_FILTERS[w.fidx][1]!r} logged an exception: {rec.records[0]}"})
@@ -1198,8 +1267,14 @@ class LogHarness:
             w.violations.append({"clause": "view-duplicates", "site": site, "detail": f"view {view} shows an entry twice (filter {tag})"})
         if view != want:
             w.violations.append({"clause": "view-equals-filtered-log", "site": site,
-                                 "detail": f"after {ev} with filter {tag} ({C_FILTERS[w.fidx][1]!r}): view {view}, retained entries matching "
-                                           f"the filter {want} (ring buffer {w.raw}, aged-out visible {w.aged})"})
+                                 "detail": f"after {ev} ({self.mode}) with filter {tag} ({C_FILTERS[w.fidx][1]!r}), paused={w.paused}: view {view}, "
+                                           f"retained entries matching the filter {want} (ring buffer {w.raw}, aged-out visible {w.aged})"})
+        if w.logger_b is not None:
+            view_b = [_ident(e) for e in w.logger_b]
+            want_b = list(w.b_aged) + list(w.b_raw)
+            if view_b != want_b:
+                w.violations.append({"clause": "view-equals-filtered-log", "site": site + "[second logger]",
+                                     "detail": f"after {ev} second logger (filter all, paused={w.b_paused}): view {view_b}, expected {want_b}"})
 
 
 # overflow family: exhaustive over a stated *shape*, without state deduplication (does not depend on canon() seeing every piece
@@ -1455,6 +1530,8 @@ def run(run: Run):
     depth = 5 if quick else 7
     for maxlen in (1, 2, 3):
         explore.bfs(run, LogHarness(maxlen), depth=depth, dev_bound=0, label=f"view maxlen={maxlen} ")
+    for mode in ("direct", "wrap"):  # the other public ways an entry reaches a logger
+        explore.bfs(run, LogHarness(2, mode), depth=depth, dev_bound=0, label=f"view maxlen=2 via {mode} ")
     ovf_items = [(pi, f, g) for pi in range(len(OVF_PREFIXES)) for f in OVF_NARROW for g in OVF_WIDER]
     for d in pmap(_ovf_work, ovf_items, run.jobs):
         run.merge(d)
@@ -1462,12 +1539,16 @@ def run(run: Run):
         wit = v["witness"]
         if isinstance(wit, dict) and "history" in wit and "part" not in wit:
             hist = wit["history"]
-            for maxlen in (2, 1, 3):
-                h = LogHarness(maxlen)
+            wrap_only = any(e[0] in ("pauseB", "resumeB") for e in hist)
+            for maxlen, mode in [(2, "api"), (1, "api"), (3, "api"), (2, "direct"), (2, "wrap")]:
+                if ("[via add_log_entry]" in v["site"]) != (mode == "direct") or ("[via Wrapping" in v["site"]) != (mode == "wrap") \
+                        or (wrap_only and mode != "wrap"):
+                    continue
+                h = LogHarness(maxlen, mode)
                 got = explore.replay_history(h, hist)
                 if any(g["clause"] == v["clause"] and g["site"] == v["site"] for g in got):
                     small = explore._minimise_tuples(h, hist, v["clause"], v["site"])
-                    v["witness"] = {"part": "c", "maxlen": maxlen, "history": [list(e) for e in small]}
+                    v["witness"] = {"part": "c", "maxlen": maxlen, "mode": mode, "history": [list(e) for e in small]}
                     break
 
     walls["c"], t_part = round(time.time() - t_part, 1), time.time()
@@ -1519,7 +1600,7 @@ def replay(w):
     entries()
     p = w.get("part")
     if p == "c" or (p is None and "history" in w):
-        return explore.replay_history(LogHarness(int(w.get("maxlen", 3))), w["history"])
+        return explore.replay_history(LogHarness(int(w.get("maxlen", 3)), w.get("mode", "api")), w["history"])
     if p == "a":
         t = _tuplify(w["tree"])
         check_tree(part, t, render(t), {"part": "a", "tree": t}, "tree")
